@@ -436,7 +436,7 @@ func determineSectorSize(f io.ReaderAt) (int, error) {
 	// plus length of magic1 and magic2 plus two bytes between them.
 	// After successful reading we just try to locate magic1 or magic2 by offsets determined by
 	// subtraction between probed sector size and minimal sector size.
-	minMaxDifference := sectorSizes[len(sectorSizes)-1] - sectorSizes[0]
+	minMaxDifference := systemAreaSectors * (sectorSizes[len(sectorSizes)-1] - sectorSizes[0])
 	buf := make([]byte, minMaxDifference+len(magic1)+extraBytes+len(magic2))
 
 	n, err := f.ReadAt(buf, psxPrefixSize+systemAreaSectors*int64(sectorSizes[0]))
@@ -448,7 +448,7 @@ func determineSectorSize(f io.ReaderAt) (int, error) {
 	}
 
 	for _, sectorSize := range sectorSizes {
-		idxMagic1 := sectorSize - sectorSizes[0]
+		idxMagic1 := systemAreaSectors * (sectorSize - sectorSizes[0])
 		if string(buf[idxMagic1:idxMagic1+len(magic1)]) == magic1 {
 			return sectorSize, nil
 		}
